@@ -640,6 +640,12 @@ def check_const_accessors(db, rep):
         bad = None
         checked = 0
         idxs = [(a, b) for a in W for b in W] if arity == 2 else [(a,) for a in W]
+        # indices that change sign or wrap when a validator narrows or re-signs them (2^31, 2^32-1, ...)
+        BIG = (2 ** 31, 2 ** 31 + 3, 2 ** 32 - 2, 2 ** 32 - 1)
+        if arity == 2:
+            idxs += [(g, b) for g in BIG for b in (0, 1, 5, 8)] + [(a, g) for a in (0, 1, 5) for g in BIG] + [(BIG[0], BIG[3]), (BIG[3], BIG[0])]
+        else:
+            idxs += [(g,) for g in BIG]
         for idx in idxs:
             hooks = GslHooks()
             it = Interp(unit, hooks)
@@ -686,7 +692,7 @@ def check_const_accessors(db, rep):
             rep.fail('C.const.idx', 'Const::%s' % name + '/' + bad[0], bad[1], bad[2], bad[3], fset['name'])
         else:
             rep.ok('C.const.idx', 2)
-            rep.sample('C.const.idx', 'Set/Get%s: %d index tuples in [0,8]: accepted ones hit the same in-extent cell, others throw' % (name, checked))
+            rep.sample('C.const.idx', 'Set/Get%s: %d index tuples in [0,8] and around 2^31 / 2^32: accepted ones hit the same in-extent cell, others throw' % (name, checked))
     rep.floor('C.const.idx', n, 6)
 
 
